@@ -239,17 +239,19 @@ class Flow:
                     out.append(ast.Name(id=x.name, ctx=ast.Store()))
         return out
 
-    def defs(self, nid: int, name: str) -> tuple[list[int], bool]:
+    def defs(self, nid: int, name: str, edge_ok: Callable[[int, int, str], bool] | None = None) -> tuple[list[int], bool]:
         """Nodes whose completed write of `name` reaches the entry of node `nid`; and whether the
         function entry reaches it without any write (parameter / global / unbound)."""
         out: list[int] = []
         from_entry = False
         seen: set[int] = set()
         stack = [nid]
+        # under a scenario only what the scenario can execute (forward from the entry) counts
+        live = self.live if edge_ok is None else self.cfg.reachable([self.cfg.entry], edge_ok=edge_ok)
         while stack:
             n = stack.pop()
             for p, lab in self.cfg.pred[n]:
-                if p not in self.live:
+                if p not in live or (edge_ok is not None and not edge_ok(p, n, lab)):
                     continue
                 completed = not lab.startswith("exc:")
                 if completed and any(isinstance(w, ast.Name) and w.id == name for w in self._writes(p)):
@@ -315,8 +317,11 @@ class Flow:
         return res
 
     # ---------------------------------------------------------------- origin resolution
-    def origin(self, expr: ast.AST, nid: int | None = None, through_helpers: bool = True, _fuel: int = 24) -> list[Org]:
-        """Where the value of `expr` (evaluated at CFG node `nid`) comes from."""
+    def origin(self, expr: ast.AST, nid: int | None = None, through_helpers: bool = True, _fuel: int = 24,
+               scenario: Callable[["Flow"], Callable[[int, int, str], bool]] | None = None) -> list[Org]:
+        """Where the value of `expr` (evaluated at CFG node `nid`) comes from.  With `scenario` (an
+        edge filter per function, see pruned()) only definitions that reach along branches the scenario
+        can take are followed."""
         if nid is None:
             nid = self.node_of(expr)
         if _fuel <= 0:
@@ -328,13 +333,13 @@ class Flow:
                 if isinstance(g.target, (ast.Tuple, ast.List)):
                     idx = next((i for i, e in enumerate(g.target.elts) if isinstance(e, ast.Name) and e.id == expr.id), None)
                 return [Org("iter", self, g.iter, nid, idx, expr.id)]
-            defs, from_entry = self.defs(nid, expr.id)
+            defs, from_entry = self.defs(nid, expr.id, scenario(self) if scenario is not None else None)
             out: list[Org] = []
             if from_entry:
                 if expr.id in self.params:
                     if self.binds is not None and expr.id in self.binds:
                         cf, cn, arg = self.binds[expr.id]
-                        out.extend(cf.origin(arg, cn, through_helpers, _fuel - 1))
+                        out.extend(cf.origin(arg, cn, through_helpers, _fuel - 1, scenario))
                     else:
                         out.append(Org("param", self, name=expr.id))
                 elif not defs:
@@ -348,7 +353,7 @@ class Flow:
                     continue  # `v = None` is cut off from this use by `v is None` / `v is not None` tests
                 if kind == "expr":
                     assert val is not None
-                    out.extend(self.origin(val, d, through_helpers, _fuel - 1))
+                    out.extend(self.origin(val, d, through_helpers, _fuel - 1, scenario))
                 elif kind in ("item", "iter"):
                     out.append(Org(kind, self, val, d, i, expr.id))
                 else:
@@ -365,7 +370,7 @@ class Flow:
                         if v is None:
                             out.append(Org("expr", ch, ast.Constant(None), r))
                         else:
-                            out.extend(ch.origin(v, r, through_helpers, _fuel - 1))
+                            out.extend(ch.origin(v, r, through_helpers, _fuel - 1, scenario))
                     return out
         return [Org("expr", self, expr, nid)]
 
@@ -433,6 +438,7 @@ def tri(expr: ast.AST, atom: Callable[[ast.AST], Tri]) -> Tri:
 def pruned(cfg: CFG, atom: Callable[[ast.AST, int], Tri], normal_only: bool = True) -> Callable[[int, int, str], bool]:
     """edge_ok for CFG searches: a branch whose condition is decided by `atom` only goes that way."""
     cache: dict[int, Tri] = {}
+    busy: set[int] = set()
 
     def ok(a: int, _b: int, lab: str) -> bool:
         if normal_only and lab.startswith("exc:"):
@@ -447,7 +453,13 @@ def pruned(cfg: CFG, atom: Callable[[ast.AST, int], Tri], normal_only: bool = Tr
         else:
             return True
         if a not in cache:
-            cache[a] = tri(test, lambda e: atom(e, a))  # type: ignore[arg-type]
+            if a in busy:  # an atom that asks about reaching definitions may come back here (loops): undecided
+                return True
+            busy.add(a)
+            try:
+                cache[a] = tri(test, lambda e: atom(e, a))  # type: ignore[arg-type]
+            finally:
+                busy.discard(a)
         v = cache[a]
         return v is None or v == (lab == "true")
 
